@@ -12,7 +12,7 @@ det = {}
 ONLY = os.environ.get("ONLY", "")
 for f in sys.argv[1:]:
     for l in open(f):
-        m = re.match(r"/tmp/mut([23]?)/(C\d+)/(\d)/patch.diff: OK detected_by=(\S+)", l)
+        m = re.match(r"/tmp/mut([2345]?)/(C\d+)/(\d)/patch.diff: OK detected_by=(\S+)", l)
         if m:
             det["%s%s-%s" % ("r%s-" % m.group(1) if m.group(1) else "", m.group(2), m.group(3))] = [] if m.group(4) == "-" else m.group(4).split(",")
 n = 0
@@ -24,7 +24,7 @@ for name, d in sorted(res.items()):
     if ONLY and not name.startswith(ONLY):
         continue
     # round-2 changes are stored as <property>-r2-<k>
-    dname = re.sub(r"^r([23])-(C\d+)-(\d)$", r"\2-r\1-\3", name)
+    dname = re.sub(r"^r([2345])-(C\d+)-(\d)$", r"\2-r\1-\3", name)
     dst = os.path.join("/verif/seeded", dname)
     os.makedirs(dst, exist_ok=True)
     shutil.copy(os.path.join(src, "patch.diff"), dst)
